@@ -189,6 +189,9 @@ def gen_plan(r, eng, seed, prop):
     ops = []
     pool = list(range(1, 255))
     r.shuffle(pool)
+    ends = [v for v in (0, 255) if r.random() < 0.6]     # the ends of the value range, drawn first
+    r.shuffle(ends)
+    pool.extend(ends)
     for _ in range(r.randrange(1, 7)):
         s = cmds.gen_cmd(r, cats)
         c = cmds.mk_cmd(s)
